@@ -24,13 +24,20 @@
    lemma), along every legal history.
    (6) C01_combined_interp: the interpolation rule for pieces cut by pending
    points and "infinite only where no evaluated point exists on one side".
-   NOT proved (decided by the correspondence and the from-scratch oracle only,
-   hence C01 stays partly `_partial`): the lower bound "scale >= scale of the
-   last recomputation" (needs monotonicity of the bounding box in an ordered
-   field); the batch path of tell_many IS covered
-   (Proofs/L1DBatch.v: it re-establishes all invariants from scratch). *)
+   (7) C01_scale_bracket / C01_factor1_exact (scalar outputs): behind every
+   scale g at which a stored loss was computed there is a bounding box of the
+   values lying between the box of the last full recomputation and the current
+   one (order laws only); with a width function that grows with the box
+   ([SubLaws], inhabited by Z) this reads  osy <= g <= sy  and, since
+   sy <= factor * osy or sy = osy,  "never more than the factor out of date";
+   with the factor equal to the unit every stored loss IS the loss function on
+   the current data at the current scale ("exact when set to 1").
+   The batch path of tell_many is covered throughout (Proofs/L1DBatch.v: it
+   re-establishes all invariants from scratch).
+   (7) is proved for scalar outputs and (C01_*_vec) for vector outputs of one
+   length without NaN; NaN values are outside the order laws. *)
 From Coq Require Import ZArith Lia.
-From AV Require Import Base.Prelude Model.L1D Proofs.L1DOrder Proofs.L1DMaps Proofs.L1DStruct Proofs.L1DLoss Proofs.L1DValues Proofs.L1DBatch Proofs.L1DCombined Proofs.L1DBatchTi Proofs.L1DBatchC Proofs.L1DProofs.
+From AV Require Import Base.Prelude Model.L1D Proofs.L1DOrder Proofs.L1DMaps Proofs.L1DStruct Proofs.L1DLoss Proofs.L1DValues Proofs.L1DBatch Proofs.L1DCombined Proofs.L1DBatchTi Proofs.L1DBatchC Proofs.L1DProofs Proofs.L1DBracket.
 
 Section C01.
   Variable num : Type.
@@ -136,6 +143,55 @@ Section C01.
     nbc (remove_unfinished s) = nb (remove_unfinished s) /\
     data (remove_unfinished s) = data s /\ los (remove_unfinished s) = los s.
   Proof. exact (@remove_unfinished_resets num). Qed.
+
+  (* "the output normalisation never more than the recomputation factor out of
+     date": every stored loss is the loss function on the current data at a
+     y-scale g between the scale of the last full recomputation and the
+     current one, and the current one exceeds the former by at most the factor
+     (or equals it).  Scalar outputs; [SubLaws]: the width of a box grows with
+     the box and is not negative. *)
+  Theorem C01_scale_bracket : OrdLaws ltb eqb -> SubLaws sub ltb zero -> forall h,
+    legal init h = true -> forallb (@scalar_op num) h = true ->
+    let s := run init h in
+    ScaleOK mul ltb P s (sy s) /\
+    forall iv, In iv (keys (los s)) -> exists g,
+      lget eqb iv (los s) = Some (loss_of sub div ltb eqb zero one L P (nb s) (data s) (sx s) g (fst iv) (snd iv)) /\
+      L1DValues.le ltb (osy s) g /\ L1DValues.le ltb g (sy s).
+  Proof.
+    exact (@scale_bracket num add sub mul div ltb eqb zero one inf neg_inf is_nan is_inf round12 of_nat L P).
+  Qed.
+
+  (* "exact when set to 1" *)
+  Theorem C01_factor1_exact : OrdLaws ltb eqb -> SubLaws sub ltb zero ->
+    (forall x, mul (factor P) x = x) -> forall h,
+    legal init h = true -> forallb (@scalar_op num) h = true ->
+    let s := run init h in
+    forall iv, In iv (keys (los s)) -> lget eqb iv (los s) = Some (get_loss s (fst iv) (snd iv)).
+  Proof.
+    exact (@factor1_exact num add sub mul div ltb eqb zero one inf neg_inf is_nan is_inf round12 of_nat L P).
+  Qed.
+
+  (* the same for vector-valued functions (all values of one length k) when no
+     value is NaN: the y-scale is the largest component range *)
+  Theorem C01_scale_bracket_vec : OrdLaws ltb eqb -> (forall z, is_nan z = false) -> SubLaws sub ltb zero ->
+    forall k h, legal init h = true -> forallb (@vector_op num k) h = true ->
+    let s := run init h in
+    ScaleOK mul ltb P s (sy s) /\
+    forall iv, In iv (keys (los s)) -> exists g,
+      lget eqb iv (los s) = Some (loss_of sub div ltb eqb zero one L P (nb s) (data s) (sx s) g (fst iv) (snd iv)) /\
+      L1DValues.le ltb (osy s) g /\ L1DValues.le ltb g (sy s).
+  Proof.
+    exact (@scale_bracket_v num add sub mul div ltb eqb zero one inf neg_inf is_nan is_inf round12 of_nat L P).
+  Qed.
+
+  Theorem C01_factor1_exact_vec : OrdLaws ltb eqb -> (forall z, is_nan z = false) -> SubLaws sub ltb zero ->
+    (forall x, mul (factor P) x = x) -> forall k h,
+    legal init h = true -> forallb (@vector_op num k) h = true ->
+    let s := run init h in
+    forall iv, In iv (keys (los s)) -> lget eqb iv (los s) = Some (get_loss s (fst iv) (snd iv)).
+  Proof.
+    exact (@factor1_exact_v num add sub mul div ltb eqb zero one inf neg_inf is_nan is_inf round12 of_nat L P).
+  Qed.
 End C01.
 
 (* ---- the law record is inhabited: integers ---- *)
@@ -146,6 +202,13 @@ Proof.
   - intros x. apply Z.ltb_irrefl.
   - intros x y z H1 H2. apply Z.ltb_lt in H1, H2. apply Z.ltb_lt. lia.
   - intros x y H1 H2. apply Z.ltb_ge in H1, H2. lia.
+Qed.
+
+Lemma Z_sub_laws : SubLaws Z.sub Z.ltb 0%Z.
+Proof.
+  constructor; unfold L1DValues.le.
+  - intros a a' b b' H1 H2. apply Z.ltb_ge in H1, H2. apply Z.ltb_ge. lia.
+  - intros a b H. apply Z.ltb_ge in H. apply Z.ltb_ge. lia.
 Qed.
 
 (* ---- non-vacuity: a concrete history (pending point cutting an evaluated
@@ -173,7 +236,34 @@ Proof.
            (fun _ => false) (fun z => Z.eqb (Z.abs z) 1000000000%Z) (fun z => z) Z.of_nat zL zP Z_ord_laws zh Hl).
 Qed.
 
+(* the bracket applies to scalar-valued histories such as zh, and its premises
+   are met by histories on which the scales really differ: after zh2 the last
+   full recomputation happened at scale 10 while the current scale is 18
+   (interval (0,50) was last computed at 15) *)
+Definition zh2 : list (op Z) :=
+  [Tell 0%Z (YS 0%Z); Tell 100%Z (YS 10%Z); Tell 50%Z (YS 15%Z); Tell 75%Z (YS (-3)%Z)].
+Definition zh3 : list (op Z) :=
+  [Tell 0%Z (YV [0; 7]%Z); Tell 100%Z (YV [10; 7]%Z); TellPending 30%Z; Tell 50%Z (YV [15; 8]%Z);
+   Tell 75%Z (YV [(-3); 9]%Z); TellMany [(20%Z, YV [1; 1]%Z)] true].
+Example C01_bracket_example_vec :
+  forallb (@vector_op Z 2) zh3 = true /\
+  @L1DBatch.legal Z Z.add Z.sub Z.mul Z.div Z.ltb Z.eqb 0%Z 1%Z 1000000000%Z (-1000000000)%Z
+         (fun _ => false) (fun z => Z.eqb (Z.abs z) 1000000000%Z) (fun z => z) Z.of_nat zL zP zinit zh3 = true /\
+  sy (zrun zinit zh3) = 18%Z.
+Proof. vm_compute. repeat split; reflexivity. Qed.
+
+Example C01_bracket_example :
+  forallb (@scalar_op Z) zh = true /\ forallb (@scalar_op Z) zh2 = true /\
+  @L1DBatch.legal Z Z.add Z.sub Z.mul Z.div Z.ltb Z.eqb 0%Z 1%Z 1000000000%Z (-1000000000)%Z
+         (fun _ => false) (fun z => Z.eqb (Z.abs z) 1000000000%Z) (fun z => z) Z.of_nat zL zP zinit zh2 = true /\
+  osy (zrun zinit zh2) = 10%Z /\ sy (zrun zinit zh2) = 18%Z.
+Proof. vm_compute. repeat split; reflexivity. Qed.
+
 Print Assumptions C01_structure_inv.
+Print Assumptions C01_scale_bracket.
+Print Assumptions C01_factor1_exact.
+Print Assumptions C01_scale_bracket_vec.
+Print Assumptions C01_factor1_exact_vec.
 Print Assumptions C01_values_inv.
 Print Assumptions C01_reported_loss.
 Print Assumptions C01_combined_interp.
